@@ -1071,11 +1071,65 @@ def simp(v):
                 if inner[0] == "const" and isinstance(inner[1], str):
                     parts.append(inner)
                     continue
+                if inner[0] == "const" and type(inner[1]) is int:
+                    parts.append(("const", str(inner[1])))       # f">{WIDTH}" with WIDTH a known integer constant
+                    continue
                 if inner[0] == "fstr":
                     parts.extend(inner[1])
                     continue
             parts.append(p)
         return flatten_fstr(("fstr", tuple(parts)))
+    # ---- the same string / list spelled with builtins instead of displays (values only, nothing is run) ----
+    if k == "call" and v[1][0] == "global" and not v[3]:
+        fn, args = v[1][1], v[2]
+        # format(x, "spec") is f"{x:spec}"
+        if fn == "format" and len(args) in (1, 2) and (len(args) == 1 or (args[1][0] == "const" and isinstance(args[1][1], str))):
+            return ("fstr", (("fmt", args[0], (args[1][1] or None) if len(args) == 2 else None, -1),))
+        # getattr(x, "name") is x.name
+        if fn == "getattr" and len(args) == 2 and args[1][0] == "const" and isinstance(args[1][1], str) and args[1][1].isidentifier():
+            return ("attr", args[0], args[1][1])
+    # "ab" * 3
+    if k == "binop" and v[1] == "Mult" and {v[2][0], v[3][0]} == {"const"}:
+        a, b = v[2][1], v[3][1]
+        if isinstance(a, int) and isinstance(b, str):
+            a, b = b, a
+        if isinstance(a, str) and type(b) is int and 0 <= b * len(a) <= 256:
+            return ("const", a * b)
+    # [f(a, b) for a, b in ((a1, b1), (a2, b2), ..)] over a display of known elements is the display [f(a1, b1), f(a2, b2), ..]
+    if k == "comp" and v[1] == "list" and len(v[3]) == 1 and not v[3][0][2] and v[3][0][1][0] in ("tuple", "list") and 0 < len(v[3][0][1][1]) <= 16 \
+            and not any(e[0] == "star" for e in v[3][0][1][1]):
+        tg, it, _ = v[3][0]
+        names = [tg] if tg is not None and tg[0] == "bv" else list(tg[1]) if tg is not None and tg[0] == "tuple" and all(t is not None and t[0] == "bv" for t in tg[1]) else None
+        if names is not None:
+            out = []
+            for e in it[1]:
+                if tg[0] == "bv":
+                    m = {tg: e}
+                elif e[0] in ("tuple", "list") and len(e[1]) == len(names) and not any(x[0] == "star" for x in e[1]):
+                    m = dict(zip(names, e[1]))
+                else:
+                    out = None
+                    break
+                out.append(simp(subst(v[2], m)))
+            if out is not None:
+                return ("list", tuple(out))
+    # list + list: one list (operands that are not displays are spliced in as *operand)
+    if k == "binop" and v[1] == "Add" and (v[2][0] == "list" or v[3][0] == "list"):
+        def operands(x):
+            if x[0] == "binop" and x[1] == "Add":
+                return operands(x[2]) + operands(x[3])
+            return [x]
+        elts = []
+        for o in operands(v[2]) + operands(v[3]):
+            if o[0] == "list":
+                elts.extend(o[1])
+            elif is_str(o) or o[0] == "const":
+                elts = None
+                break
+            else:
+                elts.append(("star", o))
+        if elts is not None:
+            return ("list", tuple(elts))
     if k == "sub":
         base, idx = v[1], v[2]
         if base[0] in ("list", "tuple") and idx[0] == "const" and isinstance(idx[1], int) \
